@@ -386,6 +386,9 @@ type ReqSpec struct {
 	// Request.Trailer (with nil values) from the start, the "Trailer" header itself is not in
 	// Request.Header, and the values appear in that same map once the body has been read to EOF.
 	Trailer http.Header
+	// Ctx, if set, is the context the server gives the request (world.Do uses it instead of
+	// context.Background()): a middleware in front of the transcoder may have put a deadline on it.
+	Ctx context.Context
 }
 
 // Build turns the spec into an *http.Request the way net/http's server would.
